@@ -43,7 +43,7 @@ from pathlib import Path
 from harness.translate import c17_tables
 
 ID = "C17"
-LEVEL_TEXT = ("Theorems (36, all closed under the global context). Kinds: for each of the 24 definition forms the member the Inspector derives from "
+LEVEL_TEXT = ("Theorems (35, all closed under the global context). Kinds: for each of the 24 definition forms the member the Inspector derives from "
               "what CPython reports has the same Griffe kind and shared labels as the Visitor's -- stated both over the tabulated observations and "
               "over observations DERIVED from a small object semantics stated once (attribute access on a class/module, inspect.is*, callable, what "
               "each statement stores; C17_observations_derived proves the table is the derived one); the ladder always has a handler; the "
@@ -2049,8 +2049,22 @@ def explore(ctx):
     check_binders(ctx, ctx.budget(150, 1200))
     run_packages(ctx, ctx.budget(110, 900), "q" if ctx.quick else "t")
     if not ctx.quick:
-        sample = [["form", f] for f in ALL_FORMS] + [["doc", [[0, []], [2, [1]], [0, [2]]]], ["samecomp", ["a", "_b"], ["_a", "b"]],
-                                                     ["rel", ["a", "b"], [["a", "b"], 0], [2, ["z"], "n", []]]]
+        sample = [["form", f] for f in ALL_FORMS] + [["stored", f] for f in ALL_FORMS] + [
+            ["doc", [[0, []], [2, [1]], [0, [2]]]], ["samecomp", ["a", "_b"], ["_a", "b"]],
+            ["rel", ["a", "b"], [["a", "b"], 0], [2, ["z"], "n", []]],
+            ["obs", 1, ["classmethod", ["function", 1]]], ["obs", 0, ["partial", ["function", 0]]], ["obs", 1, ["cached_property", ["function", 0]]],
+            ["xform", ["assigned", "mod", ["partial", ["function", 0]]], [1, [["functools"]], [["p", "m"]], ["x"], []], ["p", "m"], "x", 0],
+            ["xform", ["annotated", "cls", 1, 0], [1, [], [], [], []], ["p", "m", "K"], "c", 0],
+            ["importstmt", "mod", ["p", "m"], ["p", "m"], ["p", "m"], ["me"], ["_io"], 0],
+            ["importstmt", "cls", ["p"], ["p", "K"], ["_io"], [], ["_io"], 0],
+            ["star", [["f"]], [["f", 1, 0, 0, 0], ["_g", 1, 0, 0, 0], ["sub", 1, 0, 1, 0]], ["f", "_g"]],
+            ["star", [], [["f", 1, 0, 0, 0], ["_g", 1, 0, 0, 0], ["T", 0, 1, 0, 1]], ["f", "_g"]],
+            ["binder", "f", [["bind", "f"], ["star", ["f", "g"]], ["bind", "g"], ["star", ["g"]]]],
+            ["bases", [[1, "K", [["N0", ["local"]]]], [0, "p.m", [["G", ["local"]], ["K", ["local"]], ["Generic", ["ext", ["typing", "Generic"]]],
+                                                                  ["Imp", ["chain", [[[["p", "m"], 0], [1, ["b"], "Imp", []]]], ["p", "b"], "Imp"]]]]],
+             [[["sub", ["name", "G"]], ["class", ["p", "m", "G"], 1]], [["name", "Imp"], ["class", ["p", "b", "Imp"], 0]],
+              [["sub", ["name", "Generic"]], ["class", ["typing", "Generic"], 1]], [["name", "Exception"], ["class", ["builtins", "Exception"], 0]]]],
+            ["bases", [[0, "p.m", [["List", ["ext", ["typing", "List"]]]]]], [[["sub", ["name", "List"]], ["typingalias", ["typing", "List"], ["builtins", "list"]]]]]]
         ctx.cross_check_extraction(sample)
 
 
@@ -2070,6 +2084,7 @@ def search(ctx):
     try:
         ctx.scratch.mkdir(parents=True, exist_ok=True)
         run_packages(ctx, 120, "s")
+        check_binders(ctx, 150)
     finally:
         ctx.driver = driver
 
